@@ -28,7 +28,7 @@ var namePool = []genName{
 	{2, []byte("a..b.com")}, {2, []byte(".lead.com")}, {2, []byte(strings.Repeat("a", 64) + ".com")}, {2, []byte("EXAMPLE.Org")}, {2, []byte("localhost")},
 	{2, []byte("192.168.1.1")}, {2, []byte("foo.onion")}, {2, []byte("xn--caf-dma.com")}, {2, []byte("xn--bad!.com")}, {2, []byte("example.invalidtld")},
 	{2, []byte("1.168.192.in-addr.arpa")}, {2, []byte("a.b.c.d.in-addr.arpa")}, {2, []byte("x.ip6.arpa")}, {2, []byte("1.1.168.192.in-addr.arpa")},
-	{2, []byte("b*.example.com")}, {2, []byte("example.com\x00.evil")}, {2, []byte("caf\xc3\xa9.com")}, {2, []byte("1.0.0.10.in-addr.arpa")},
+	{2, []byte("b*.example.com")}, {2, []byte(strings.Repeat(strings.Repeat("a", 63)+".", 3) + strings.Repeat("b", 62))}, {2, []byte(strings.Repeat(strings.Repeat("a", 63)+".", 3) + strings.Repeat("b", 61))}, {2, []byte("example.com\x00.evil")}, {2, []byte("caf\xc3\xa9.com")}, {2, []byte("1.0.0.10.in-addr.arpa")},
 	{1, []byte("user@example.com")}, {1, []byte("not an address")}, {1, []byte("")}, {1, []byte("caf\xc3\xa9@example.com")},
 	{6, []byte("http://example.com/path")}, {6, []byte("mailto:a@b.com")}, {6, []byte("urn:foo:bar")}, {6, []byte("//relative/path")}, {6, []byte("http://[::1]:80/")},
 	{6, []byte("http://exa mple.com/")}, {6, []byte("https://10.0.0.1/")}, {6, []byte("ftp://host_name/")}, {6, []byte("caf\xc3\xa9://x")},
@@ -224,10 +224,15 @@ func init() {
 					seenN[term] = true
 					out.Add("names", Case{Coq: term, Tag: tag, Desc: map[string]interface{}{"object": what, "cn": c.Subject.CommonName, "dns": c.DNSNames}})
 				}
+				// the four lints that relate the common name(s) to the SAN entries (Kernels/CnSan.v)
+				if term, tag, ok := cnSanCase(c); ok && !seenN["cnsan"+term] {
+					seenN["cnsan"+term] = true
+					out.Add("cnsan", Case{Coq: term, Tag: tag, Desc: map[string]interface{}{"object": what, "cns": c.Subject.CommonNames, "dns": c.DNSNames, "ips": fmt.Sprint(c.IPAddresses)}})
+				}
 			}
 			for _, zc := range certZoo() {
 				switch zc.Class {
-				case "name", "related-names", "many-san", "tld", "extension", "ku-eku", "own-key":
+				case "name", "related-names", "many-san", "tld", "extension", "ku-eku", "own-key", "subject", "subject-repeat", "name-constraints":
 					addN(zc.Cert, zc.File)
 				}
 			}
